@@ -69,7 +69,7 @@ def situation(prog):
                     tags.add("loop_body_with_2+_cfgs")
                 elif n == 1:
                     tags.add("loop_body_with_1_cfg")
-                if any(x[0] in ("call",) for x in s[2]):
+                if any(x[0] in ("call", "lcall") for x in s[2]):
                     tags.add("call_in_loop")
                 if any(x[0] == "if" for x in s[2]):
                     tags.add("if_in_loop")
@@ -78,7 +78,7 @@ def situation(prog):
                 walk(s[2], True, in_if)
             elif s[0] == "if":
                 for b in (s[2], s[3] or ()):
-                    if any(x[0] == "call" for x in b):
+                    if any(x[0] in ("call", "lcall") for x in b):
                         tags.add("call_in_if_branch")
                     if any(x[0] == "for" for x in b):
                         tags.add("loop_in_if")
@@ -145,7 +145,7 @@ def run(chk):
     chk.functions = ["snaxc.transforms.convert_linalg_to_accfg.TraceStatesPass (real, produces the original)",
                      "snaxc.transforms.accfg_dedup.AccfgDeduplicate (hoist=True/False)",
                      "snaxc.inference.trace_acc_state.infer_state_of / helpers (executed inside the pass)",
-                     "snaxc.inference.helpers.has_accfg_effects (decides which calls clobber in the machine)"]
+                     "snaxc.inference.helpers.has_accfg_effects (executed inside trace-states; the machine uses its own rule)"]
     chk.explanation = (
         "Translation validation: each generated accfg program (grammar of DESIGN section 2) is run through the real "
         "accfg-trace-states and accfg-dedup; original and deduplicated IR are executed by the symbolic IR interpreter "
